@@ -172,7 +172,7 @@ func init() {
 	}
 }
 
-var c16Alphabet = []byte{'a', '5', '-', '\\', '"', '\'', '/', '*', ':', '(', ' ', '\n', 0xC3, 0xA9}
+var c16Alphabet = []byte{'a', '5', '-', '\\', '"', '\'', '/', '*', ':', '(', ' ', '\n', 0xC3, 0xA9, 0xD9, 0xA3}
 
 func c16Classify(st *report.Stats, c C16Case, ntok int, sawErr bool) {
 	s := string(c.Input)
